@@ -414,6 +414,12 @@ def zeros_of(t, shapes=(), like=(), allow_empty=False):
         dt = dt[2][0]                           # np.dtype(float) names the same type
     if not set(kw) <= {"dtype"} or dt not in FLOAT_DTYPES:
         return False
+    if t[1] == "numpy.full" and (len(pos) == 2 or (len(pos) == 1 and "fill_value" in dict(t[3]))):
+        # np.full(n, 0, dtype=float) is np.zeros(n)
+        fv = pos[1] if len(pos) == 2 else dict(t[3])["fill_value"]
+        kw2 = {k: v for k, v in kw.items() if k != "fill_value"}
+        return isinstance(fv, tuple) and fv[0] == "const" and fv[1] == 0 and not isinstance(fv[1], bool) and set(kw2) <= {"dtype"} and "dtype" in kw2 and \
+            _shape_norm(pos[0]) in [_shape_norm(s_) for s_ in shapes]
     names = ("numpy.zeros",) + (("numpy.empty",) if allow_empty else ())
     if t[1] in names and len(pos) == 1:
         return _shape_norm(pos[0]) in [_shape_norm(s_) for s_ in shapes]
